@@ -444,6 +444,12 @@ def check_c05(pid, tier):
     if len(cfgs) > cap:
         cfgs = rng.sample(cfgs, cap)
         ev.cov["exhaustive"] = False
+    # always included: a fast reader behind NextTime next to slower readers that drag the producer ahead (what the
+    # fast reader receives must not depend on how far ahead the producer is, i.e. on the listing order)
+    sampled = {jdump(c) for c in cfgs}
+    nxt = [k for k in base.values() if k.get("fam") == "fanout3shared" and jdump(k) not in sampled
+           and any(a["b"] == "next" for c in k["comps"] for lk in c["ins"] for a in lk["chain"])]
+    cfgs += nxt if tier != "quick" else rng.sample(nxt, min(len(nxt), 40))
     # small families that are always run completely (every listing order)
     for f, n in (("fanoutsum", None), ("finisher", 40 if tier == "quick" else None)):
         got = []
